@@ -111,6 +111,9 @@ def run_case(case):
                 step = {"op": "push", "path": path, "size": case["size"], "seed": case["seed"], "src": rng.choice(["bytesio", "file"]),
                         "mode": rng.choice([0o100644, 0o100777, 0, 1, 0x7FFFFFFF, 0xFFFFFFFF, 0o100660]), "mtime": rng.choice([0, 0, 1, 1234567890, 0x7FFFFFFF, 0xFFFFFFFF]),
                         "cb": rng.choice([None, None, "ok", "raise", "raisebase"])}
+                if (case["size"] + len(path)) % 6 == 1:
+                    step["fill"] = ["zeros", "zerotail", "holes"][len(path) % 3]      # sparse sources: long runs of NUL bytes, also at the very end
+                    stats["sources_with_long_zero_runs"] = stats.get("sources_with_long_zero_runs", 0) + 1
                 nstreams = len(sess.sim.all_streams)
                 out, v = r.do_push(0, step)
                 viol += v
